@@ -11,6 +11,27 @@ from props import grading_common as gc
 from props import C02 as c02
 
 
+def gen_all_chopped(rng):
+    """2..4 boxes in a row, EVERY direction of every box chopped by the user (nothing has to be propagated, so a lost
+    neighbour relation cannot surface as an undefined-grading error), counts across the row agreeing or not; the mesh is
+    re-assembled or written once before the observed write"""
+    n = rng.randint(2, 4)
+    d = rng.randrange(3)
+    cells = [tuple(i if k == d else 0 for k in range(3)) for i in range(n)]
+    perms = [rng.choice(gc.ROT24) for _ in cells]
+    order = list(range(n))
+    rng.shuffle(order)
+    asm = gc.Assembly(cells, perms, {}, {}, order)
+    base = {}
+    for fam in gc.families(asm):
+        a = rng.choice([2, 3, 5])
+        for x in fam:
+            asm.chops[x] = [dict(count=a if rng.random() < 0.8 else a + rng.choice([1, 2, 6]))]
+    asm.life = rng.choice([1, 2, 3, 4, 4])
+    asm.mode = "all-chopped"
+    return asm
+
+
 def gen_far_chops(rng):
     n = rng.randint(4, 6)
     d = rng.randrange(3)
@@ -67,6 +88,8 @@ class C01(Prop):
         # boxes chopped across the row, every insertion order equally likely
         for i in range(ctx.n(40, 600)):
             spec.append((gen_far_chops(rng), None if i % 3 else c02.make_prio(rng)))
+        for i in range(ctx.n(30, 400)):
+            spec.append((gen_all_chopped(rng), None))
         done = c02.corr_grading(ctx, res, spec, "c01")
         res.samples = [dict(assembly=a.to_json(), injected=inj, outcome=r["outcome"], counts=r.get("counts")) for (a, inj, r) in done[:3]]
         return res
@@ -75,7 +98,7 @@ class C01(Prop):
         fails = []
         rng = ctx.rng
         for i in range(ctx.n(400, 4000)):
-            asm = gc.gen_assembly(rng, max_cells=5, conflict_bias=0.4)
+            asm = gen_all_chopped(rng) if i % 4 == 0 else gc.gen_assembly(rng, max_cells=5, conflict_bias=0.4)
             for prio in (None, c02.make_prio(rng)):
                 r = gc.run_impl(asm, ctx.work, prio)
                 why = gc.direct_oracle(asm, r)
